@@ -107,7 +107,13 @@ def run_one(args):
             if m.get_code() != t:
                 return ('bnd:C04.code', 'code', 'get_code() differs from the new text at step %d' % step, texts[:step + 1])
             if struct(m) != struct(fresh):
-                return ('bnd:C04.equals_fresh_parse', 'tree', 'tree differs from a fresh parse at step %d' % step, texts[:step + 1])
+                # classify: on a text that does not parse cleanly, with exactly the same leaves (kind, text, prefix,
+                # position) in both trees, only the nesting of the recovered parts differs
+                lm = [struct(x) for x in nodes_of(m) if is_leaf(x)]
+                lf = [struct(x) for x in nodes_of(fresh) if is_leaf(x)]
+                broken = any(getattr(x, 'type', '') in ('error_node', 'error_leaf') for x in nodes_of(fresh))
+                sig = 'tree:same-leaves-different-recovery-nesting' if (lm == lf and broken) else 'tree'
+                return ('bnd:C04.equals_fresh_parse', sig, 'tree differs from a fresh parse at step %d' % step, texts[:step + 1])
             for x in nodes_of(m):
                 if not is_leaf(x):
                     for c in x.children:
